@@ -1,10 +1,9 @@
-(** C08, the string side: facts about the model parser. The round trip
-    [parse (render e) = Some e] for every AST is NOT proved here (see DESIGN 5 C08:
-    it is validated on every run by the correspondence check, which parses every
-    rendering of every generated AST with this parser and compares values); what is
-    proved: the precedence table is a function (every operator token belongs to
-    exactly one level), abbreviations are their expansions by construction, and
-    kernel-evaluated instances of precedence, associativity and token disambiguation. *)
+(** C08, the string side: facts about the model parser on hand-written strings. The
+    round trip [parse (render e) = Some e] for every AST is proved in Syn/RoundTrip.v
+    (tokens) and Syn/LexThm.v (characters); here: the precedence table is a function
+    (every operator token belongs to exactly one level), and kernel-evaluated instances
+    of precedence, associativity, token disambiguation and of the abbreviated forms
+    ([@ . .. //], implicit child), which the canonical rendering does not use. *)
 From XV Require Import Base.Str Base.Num Xp.Ast Syn.Parse.
 From Coq Require String.
 Import String.StringSyntax.
